@@ -746,7 +746,7 @@ def run(ctx, out):
         (6, "raw", [H(0), H(1), H(2), H(6), H(7)] + B(0x41, 0xFF), 5 if thorough else 4, 10 if thorough else 9, (0, 2)),
         (6, "ws", B(0x81, 0x80, 0x02, 0x00), 6 if thorough else 5, 8, (0, 2)),
         (6, "ws", [bytes([0x81, 0x80]), bytes([0x82, 0x82]), bytes([0x82, 0x86]), bytes([0x81, 0x87]), bytes([0x81, 0x01]), bytes([0x2A])],
-         5 if thorough else 4, 9 if thorough else 8, (0, 2)),
+         5 if thorough else 4, 9 if thorough else 7, (0, 2)),
     ]
     for cap, client, alpha, maxtok, maxbytes, kinds in exh_plan:
         count = 0
@@ -795,6 +795,10 @@ def run(ctx, out):
     # ---- 4. extra model-vs-code cases outside the stream/chunking scheme (unused answers, W in the middle,
     #         empty chunk, events on a dead connection)
     misc = [
+        # corpus: minimised witnesses of past (seeded) defects, kept as regression scripts
+        (6, ["new 6 line ee C0d", "event C0a"]),                                   # delimiter split across two reads
+        (6, ["new 6 line 0d -", "event C0d0a0d0a0d0d", "event E"]),                 # compaction must move all unread bytes
+        (6, ["new 6 raw ee C00000006", "event C414243444546", "event C00000007"]),   # length == cap is legal, cap+1 is not
         (8, ["new 8 raw 00 C00,W,C01", "event C-", "event C00"]),
         (8, ["new 8 raw 5a -", "event W,W", "event B,C00000001,C41", "event C00000002,B,C4142", "event C4142,E,C00", "event E"]),
         (8, ["new 8 line 00 C0d,C-,C0a", "event C0a"]),
@@ -813,6 +817,15 @@ def run(ctx, out):
     problems += misc_fail
 
     # ---- classification
+    _viol = out.violation
+    _seen_replays = set()
+
+    def violation_once(what, obj, no_input=False):
+        key = repr(sorted((k, repr(v)) for k, v in obj.items()))
+        if key not in _seen_replays:
+            _seen_replays.add(key)
+            _viol(what, obj, no_input=no_input)
+    out.violation = violation_once
     impl_kinds = ("chunking", "fault", "crash", "rawframing")
     reported = 0
     seen_kinds = set()
@@ -892,6 +905,7 @@ def run(ctx, out):
                                             "first_difference": first}), no_input=True)
             reported += 1
 
+    out.violation = _viol
     # ---- if the proofs are broken, the search above has already run on the implementation
     out.coverage.update({
         "traces_validated_against_impl": total["scenarios"],
